@@ -282,6 +282,8 @@ def write_evidence(prop, tier, seed, sel, results, level_text, assumptions, outs
                       'solver_s': o['s']})
     per_case.append({'case': r['case'], 'status': s.get('status', 'crash' if r.get('crash') else 'concrete'),
                      'paths': s.get('paths', 0), 'obligations': len(obs),
+                     'decided_by_path_condition': s.get('trivial_obligations', 0),
+                     'obligation_names': s.get('obligation_names', []),
                      'unsat': sum(1 for o in obs if o['result'] == 'unsat'),
                      'sat': sum(1 for o in obs if o['result'] == 'sat'),
                      'unknown': sum(1 for o in obs if o['result'] == 'unknown'),
